@@ -3,29 +3,197 @@ package main
 import (
 	"context"
 	"fmt"
+	"time"
 
-	ipfslog "berty.tech/go-ipfs-log"
 	"berty.tech/go-orbit-db/iface"
+	"berty.tech/go-orbit-db/stores/eventlogstore"
 	cid "github.com/ipfs/go-cid"
 	"verifharness/sim"
 )
 
 func init() { drivers["C08"] = driver{"C08", runC08} }
 
-// C08: event-log listing and window queries.  Case = (full listing, bound, amount,
-// observed window); additionally listing-monotonicity cases (before, after a merge).
+// c08View runs the query matrix on one event log as it stands: every bound kind at every
+// position of the LISTING x every amount class, Get of every listed entry, and listing =
+// log values.  `every` > 1 samples the matrix (one query in `every`, drawn from r.Rng).
+func c08View(r *Run, s *Scen, st iface.EventLogStore, li int, view string, every int, seen map[string]bool) error {
+	ctx := context.Background()
+	// views of one log holding the same entries give the same terms (listing, query, answer)
+	// when they answer alike: evaluated once
+	add := func(term string, descr map[string]interface{}, nontrivial bool) {
+		if seen[term] {
+			r.Count("same listing, query and answer as on another view of the log: recorded once")
+			return
+		}
+		seen[term] = true
+		r.AddCase(term, descr, nontrivial)
+	}
+	all := st.OpLog().Values().Slice()
+	inf := -1
+	full, err := st.List(ctx, &iface.StreamOptions{Amount: &inf})
+	if err != nil {
+		return err
+	}
+	fullIDs := make([]int, len(full))
+	for i, op := range full {
+		fullIDs[i] = s.Canon.Hash.ID(op.GetEntry().GetHash().String())
+	}
+	// does the log lack ancestors of its entries (limited load, failed fetches)?
+	holes, shifted := 0, 0
+	for i, e := range all {
+		for _, c := range e.GetNext() {
+			if _, ok := st.OpLog().Get(c); !ok {
+				holes++
+			}
+		}
+		if e.GetClock().GetTime()-1 > i {
+			shifted++
+		}
+	}
+	r.Count("view=" + view)
+	if holes > 0 {
+		r.Count("view lacks ancestors of listed entries")
+	}
+	if shifted > 0 {
+		r.Count("view lists entries before their Lamport time")
+	}
+	r.Count(fmt.Sprintf("len=%d", len(all)))
+	amounts := []*int{nil}
+	for _, a := range []int{0, 1, 2, 3, len(all), len(all) + 2, -1, -3} {
+		a := a
+		amounts = append(amounts, &a)
+	}
+	type bnd struct {
+		kind string
+		h    *cid.Cid
+	}
+	bounds := []bnd{{"BNone", nil}}
+	for _, e := range all {
+		c := e.GetHash()
+		for _, k := range []string{"BGt", "BGte", "BLt", "BLte"} {
+			bounds = append(bounds, bnd{k, &c})
+		}
+	}
+	for _, b := range bounds {
+		for _, a := range amounts {
+			if every > 1 && r.Rng.Intn(every) != 0 {
+				continue
+			}
+			opts := &iface.StreamOptions{Amount: a}
+			bterm := "BNone"
+			switch b.kind {
+			case "BGt":
+				opts.GT = b.h
+			case "BGte":
+				opts.GTE = b.h
+			case "BLt":
+				opts.LT = b.h
+			case "BLte":
+				opts.LTE = b.h
+			}
+			if b.h != nil {
+				bterm = fmt.Sprintf("(%s %s)", b.kind, sim.CoqN(s.Canon.Hash.ID(b.h.String())))
+			}
+			res, err := st.List(ctx, opts)
+			if err != nil {
+				return err
+			}
+			got := make([]int, len(res))
+			for i, op := range res {
+				got[i] = s.Canon.Hash.ID(op.GetEntry().GetHash().String())
+			}
+			add(fmt.Sprintf("(CQuery %s %s %s %s)", sim.CoqListN(fullIDs), bterm, sim.CoqOptZ(a), sim.CoqListN(got)),
+				map[string]interface{}{"kind": "query", "log": li, "view": view, "len": len(all), "bound": b.kind, "amount": a, "got": len(got)}, len(all) >= 2)
+			r.Count("bound=" + b.kind)
+			if a == nil {
+				r.Count("amount=unset")
+			} else if *a < 0 {
+				r.Count("amount<0")
+			} else if *a == 0 {
+				r.Count("amount=0")
+			} else if *a > len(all) {
+				r.Count("amount>len")
+			} else {
+				r.Count("amount=1..len")
+			}
+		}
+	}
+	// Get by address
+	for _, e := range all {
+		op, err := st.Get(ctx, e.GetHash())
+		got := 0
+		if err == nil && op != nil {
+			got = s.Canon.Hash.ID(op.GetEntry().GetHash().String())
+		}
+		add(fmt.Sprintf("(CGet %s %s %s)", sim.CoqListN(fullIDs), sim.CoqN(s.Canon.Hash.ID(e.GetHash().String())), sim.CoqN(got)),
+			map[string]interface{}{"kind": "get", "log": li, "view": view}, true)
+		r.Count("get")
+	}
+	// listing equals log values
+	add(fmt.Sprintf("(CListing %s %s)", s.Canon.CoqEntries(all), sim.CoqListN(fullIDs)),
+		map[string]interface{}{"kind": "listing", "log": li, "view": view, "len": len(all)}, len(all) >= 2)
+	return nil
+}
+
+// c08Limited reopens replica 0 and loads it with a limit, given to Load or through the
+// MaxHistory store option (then on a store object built as C15 does); returns the store to
+// query and a function closing what was opened besides s.Stores[0].
+func c08Limited(s *Scen, limit int, maxHistory bool) (iface.EventLogStore, func(), error) {
+	ctx := context.Background()
+	if err := c13Reopen(s, 0); err != nil {
+		return nil, nil, err
+	}
+	target, amount, done := s.Stores[0], limit, func() {}
+	if maxHistory {
+		st2 := s.Stores[0]
+		m, no := limit, false
+		st3, err := eventlogstore.NewOrbitDBEventLogStore(st2.IPFS(), st2.Identity(), st2.Address(), &iface.NewStoreOptions{
+			AccessController: st2.AccessController(),
+			Cache:            st2.Cache(),
+			MaxHistory:       &m,
+			Replicate:        &no,
+			PubSub:           s.Env.Net.PubSub(s.Reps[0].Idx),
+			PeerID:           s.Reps[0].PID,
+			Directory:        s.Reps[0].Dir,
+			IO:               st2.IO(),
+		})
+		if err != nil {
+			return nil, nil, fmt.Errorf("store with MaxHistory: %w", err)
+		}
+		target, amount, done = st3, -1, func() { _ = st3.Close() }
+	}
+	if err := target.Load(ctx, amount); err != nil {
+		done()
+		return nil, nil, fmt.Errorf("Load(%d) (limit %d): %w", amount, limit, err)
+	}
+	if !sim.Settle(ctx, s.Env, 20*time.Second, 1, target) {
+		done()
+		return nil, nil, fmt.Errorf("Load(%d) did not settle: %s", limit, sim.LastSettleState)
+	}
+	return target.(iface.EventLogStore), done, nil
+}
+
+// C08: event-log listing and window queries.  Case = (listing, bound, amount, observed
+// window); additionally listing-monotonicity cases (before, after a merge).  The query
+// matrix runs on every kind of log a store can hold: the fully merged log (replica 0), the
+// partially merged logs of the other writers, a replica that merged the heads but could
+// not fetch some ancestors (log with holes), and replica 0 reopened and loaded with a
+// limit (Load(n) / MaxHistory): the listing is whatever the log holds.
 func runC08(r *Run) error {
 	defer closeEnv()
-	logs := 6
+	logs := 8
 	if r.Tier == "thorough" {
 		logs = 240
 	}
 	for li := 0; li < logs; li++ {
 		writers := 1 + r.Rng.Intn(3)
-		s, err := NewScen(writers, "eventlog", nil)
+		// one more replica that never writes: it merges the final heads with some ancestors
+		// out of reach
+		s, err := NewScen(writers+1, "eventlog", nil)
 		if err != nil {
 			return err
 		}
+		H := writers
 		n := r.Rng.Intn(9)
 		if li == 0 {
 			n = 0
@@ -34,7 +202,6 @@ func runC08(r *Run) error {
 			n = r.Rng.Intn(14)
 		}
 		ctx := context.Background()
-		var prev []ipfslog.Entry
 		for i := 0; i < n; i++ {
 			w := r.Rng.Intn(writers)
 			st := s.Stores[w].(iface.EventLogStore)
@@ -66,94 +233,124 @@ func runC08(r *Run) error {
 			}
 			s.Settle()
 		}
-		st := s.Stores[0].(iface.EventLogStore)
-		all := st.OpLog().Values().Slice()
-		_ = prev
-		inf := -1
-		full, err := st.List(ctx, &iface.StreamOptions{Amount: &inf})
-		if err != nil {
+		thorough := r.Tier == "thorough"
+		seen := map[string]bool{}
+		r.Count(fmt.Sprintf("writers=%d", writers))
+		all := s.Stores[0].OpLog().Values().Slice()
+		every := 1
+		if !thorough && len(all) > 4 {
+			every = 3
+		}
+		if err := c08View(r, s, s.Stores[0].(iface.EventLogStore), li, "merged", every, seen); err != nil {
 			return err
 		}
-		fullIDs := make([]int, len(full))
-		for i, op := range full {
-			fullIDs[i] = s.Canon.Hash.ID(op.GetEntry().GetHash().String())
+		// the matrix on the additional views is sampled (the thorough tier runs 240 logs with
+		// ten views each)
+		sparse := 4
+		if thorough {
+			sparse = 4
 		}
-		r.Count(fmt.Sprintf("len=%d", len(all)))
-		r.Count(fmt.Sprintf("writers=%d", writers))
-		amounts := []*int{nil}
-		for _, a := range []int{0, 1, 2, 3, len(all), len(all) + 2, -1, -3} {
-			a := a
-			amounts = append(amounts, &a)
-		}
-		type bnd struct {
-			kind string
-			h    *cid.Cid
-		}
-		bounds := []bnd{{"BNone", nil}}
-		for _, e := range all {
-			c := e.GetHash()
-			for _, k := range []string{"BGt", "BGte", "BLt", "BLte"} {
-				bounds = append(bounds, bnd{k, &c})
+		// the other writers: whatever prefix of the merge sequence they have seen
+		for w := 1; w < writers; w++ {
+			if s.Stores[w].OpLog().Len() == len(all) && !thorough {
+				continue
+			}
+			if err := c08View(r, s, s.Stores[w].(iface.EventLogStore), li, "partially-merged", sparse, seen); err != nil {
+				return err
 			}
 		}
-		for _, b := range bounds {
-			for _, a := range amounts {
-				if r.Tier != "thorough" && len(all) > 4 && r.Rng.Intn(3) != 0 {
+		// a replica that merges the heads while the blocks of some ancestors cannot be fetched:
+		// its log has holes (entries whose parents are not listed)
+		if len(all) >= 2 {
+			api := s.Reps[H].API
+			nv := 1 + r.Rng.Intn(2)
+			var victims []string
+			for k := 0; k < nv; k++ {
+				v := all[r.Rng.Intn(len(all)-1)].GetHash().String() // never the newest entry
+				api.FailGet(v, true)
+				victims = append(victims, v)
+			}
+			if err := s.SyncFrom(H, 0); err != nil {
+				return err
+			}
+			if !s.Settle() {
+				r.AddDirect("hang:sync", "replication did not settle", map[string]interface{}{"log": li, "view": "holes", "state": sim.LastSettleState})
+			}
+			for _, v := range victims {
+				api.FailGet(v, false)
+			}
+			if err := c08View(r, s, s.Stores[H].(iface.EventLogStore), li, "holes", sparse, seen); err != nil {
+				return err
+			}
+		}
+		// replica 0 reopened and loaded completely: from its cached heads, or from a snapshot
+		// saved before the restart (quick tier: one of the two)
+		if len(all) >= 1 {
+			which := r.Rng.Intn(2)
+			for k, view := range []string{"load(-1)", "snapshot"} {
+				if !thorough && k != which {
 					continue
 				}
-				opts := &iface.StreamOptions{Amount: a}
-				bterm := "BNone"
-				switch b.kind {
-				case "BGt":
-					opts.GT = b.h
-				case "BGte":
-					opts.GTE = b.h
-				case "BLt":
-					opts.LT = b.h
-				case "BLte":
-					opts.LTE = b.h
+				if view == "snapshot" {
+					if out, msg, _ := c13Save(ctx, s.Stores[0]); out != c13Ok {
+						return fmt.Errorf("log %d SaveSnapshot: %s %s", li, c13OutcomeName[out], msg)
+					}
 				}
-				if b.h != nil {
-					bterm = fmt.Sprintf("(%s %s)", b.kind, sim.CoqN(s.Canon.Hash.ID(b.h.String())))
+				if err := c13Reopen(s, 0); err != nil {
+					return err
 				}
-				res, err := st.List(ctx, opts)
+				if view == "snapshot" {
+					if out, msg := c13Load(ctx, s.Stores[0]); out != c13Ok {
+						return fmt.Errorf("log %d LoadFromSnapshot: %s %s", li, c13OutcomeName[out], msg)
+					}
+				} else if err := s.Stores[0].Load(ctx, -1); err != nil {
+					return fmt.Errorf("log %d Load(-1): %w", li, err)
+				}
+				if !s.Settle() {
+					r.AddDirect("hang:load", "store did not settle", map[string]interface{}{"log": li, "view": view, "state": sim.LastSettleState})
+				}
+				if err := c08View(r, s, s.Stores[0].(iface.EventLogStore), li, view, sparse, seen); err != nil {
+					return err
+				}
+			}
+		}
+		// replica 0 reopened and loaded with a limit
+		if len(all) >= 1 {
+			// the first limit leaves ancestors out whenever the log has two entries or more
+			limits := []int{1, 1 + r.Rng.Intn(len(all))}
+			if len(all) >= 2 {
+				limits[0] = 1 + r.Rng.Intn(len(all)-1)
+			}
+			if thorough {
+				limits = append(limits, 1, len(all), len(all)+1+r.Rng.Intn(2))
+			} else if r.Rng.Intn(3) == 0 {
+				limits[1] = len(all) + r.Rng.Intn(3)
+			}
+			for k, n := range limits {
+				maxHistory := k%2 == 1
+				view := fmt.Sprintf("load(%d)", n)
+				if maxHistory {
+					view = fmt.Sprintf("maxhistory(%d)", n)
+				}
+				st, done, err := c08Limited(s, n, maxHistory)
+				if err != nil {
+					return fmt.Errorf("log %d %s: %w", li, view, err)
+				}
+				kind := "limited-load"
+				if n >= len(all) {
+					kind = "limited-load-covering-the-log"
+				}
+				if maxHistory {
+					kind += "-maxhistory"
+				}
+				r.Count(kind)
+				err = c08View(r, s, st, li, view, sparse, seen)
+				done()
 				if err != nil {
 					return err
 				}
-				got := make([]int, len(res))
-				for i, op := range res {
-					got[i] = s.Canon.Hash.ID(op.GetEntry().GetHash().String())
-				}
-				r.AddCase(fmt.Sprintf("(CQuery %s %s %s %s)", sim.CoqListN(fullIDs), bterm, sim.CoqOptZ(a), sim.CoqListN(got)),
-					map[string]interface{}{"kind": "query", "log": li, "len": len(all), "bound": b.kind, "amount": a, "got": len(got)}, len(all) >= 2)
-				r.Count("bound=" + b.kind)
-				if a == nil {
-					r.Count("amount=unset")
-				} else if *a < 0 {
-					r.Count("amount<0")
-				} else if *a == 0 {
-					r.Count("amount=0")
-				} else if *a > len(all) {
-					r.Count("amount>len")
-				} else {
-					r.Count("amount=1..len")
-				}
 			}
 		}
-		// Get by address
-		for _, e := range all {
-			op, err := st.Get(ctx, e.GetHash())
-			got := 0
-			if err == nil && op != nil {
-				got = s.Canon.Hash.ID(op.GetEntry().GetHash().String())
-			}
-			r.AddCase(fmt.Sprintf("(CGet %s %s %s)", sim.CoqListN(fullIDs), sim.CoqN(s.Canon.Hash.ID(e.GetHash().String())), sim.CoqN(got)),
-				map[string]interface{}{"kind": "get", "log": li}, true)
-			r.Count("get")
-		}
-		// listing equals log values
-		r.AddCase(fmt.Sprintf("(CListing %s %s)", s.Canon.CoqEntries(all), sim.CoqListN(fullIDs)),
-			map[string]interface{}{"kind": "listing", "log": li, "len": len(all)}, len(all) >= 2)
 		s.Close()
 	}
 	return nil
